@@ -45,6 +45,10 @@ ASSUMPTIONS = [
     "position and nesting depth of the call's arguments - are covered by the oracle and, for 'a call that raised changed "
     "nothing', by the state comparison of the correspondence; the clause checked is the property's 'fails and leaves the "
     "container unchanged' generalised to EVERY operation that raises for whatever reason, for every live container",
+    "value objects that ARE str (or int) instances but whose str() differs from their content - str subclasses with their "
+    "own __str__, str-mixin and int-mixin Enum members, IntEnum, FTag members, bool - are written as values everywhere "
+    "(set, constructor, group items, dict equality); what is stored and read back (get / [] / query / group items / after "
+    "pickle and copy) is judged by TYPE and content: `type(v) is str and v == str(written)`",
     "FIXMessage instances used as group items (their __repr__ differs from __str__) are outside the model",
     "pickle: default object pickling of the instance dict is modelled as the identity and compared on the implementation",
     "CPython's int(str) for non-ASCII input is modelled from two character tables read off the running interpreter",
@@ -84,6 +88,45 @@ def class_table():
         "str": str,
         "FIXContainer": FIXContainer,
     }
+
+
+class StrSub(str):
+    """a str INSTANCE whose str() is not its content (a str subclass with its own __str__)"""
+
+    def __new__(cls, content, text):
+        o = super().__new__(cls, content)
+        o._text = text
+        return o
+
+    def __str__(self):
+        return self._text
+
+    def __reduce__(self):
+        return (StrSub, (str.__str__(self), self._text))
+
+
+class Side(str, enum.Enum):
+    """str-mixin enum: Side.BUY == "1" and is a str instance, but str(Side.BUY) is "Side.BUY" """
+    BUY = "1"
+    SELL = "2"
+
+
+class IntSide(enum.IntEnum):
+    ONE = 1
+    TWO = 2
+
+
+class MixInt(int, enum.Enum):
+    """int-mixin enum: an int instance whose str() is "MixInt.SEVEN" """
+    SEVEN = 7
+
+
+def strict_str(v):
+    """the text of a stored / returned value – which must be a plain `str`, not merely an instance of str whose
+    str() may differ from its content ('values read back are the string form of what was written')"""
+    if type(v) is str:
+        return "s" + hx(v)
+    return "!" + type(v).__name__ + ":" + hx(str.__str__(v) if isinstance(v, str) else repr(v))
 
 
 class Boom(Exception):
@@ -223,6 +266,14 @@ def to_py(j):
     (k, v), = j.items()
     if k == "odd":
         return Odd(v)
+    if k == "strsub":
+        return StrSub(v[0], v[1])
+    if k == "strenum":
+        return Side[v]
+    if k == "intenum":
+        return IntSide[v]
+    if k == "mixint":
+        return MixInt[v]
     if k == "i":
         return int(v)
     if k == "s":
@@ -571,7 +622,7 @@ def _conts(v):
 
 def dump_val(v, path=()):
     if isinstance(v, str):
-        return "s" + hx(v)
+        return strict_str(v)
     if isinstance(v, type):
         return cls_tok(v)
     return "[" + "".join(dump_cont(g, path) for g in v.groups) + "]"
@@ -835,7 +886,7 @@ class Impl:
             if isinstance(r, type):
                 return "cls " + cls_tok(r)
             if isinstance(r, str):
-                return "str " + hx(r)
+                return "str " + hx(r) if type(r) is str else "str " + strict_str(r)
             return "dflt " + hx(repr(r))
 
         if cmd == "get":
@@ -884,7 +935,7 @@ class Impl:
                     if isinstance(v, type):
                         return cls_tok(v)
                     if isinstance(v, str):
-                        return "s" + hx(v)
+                        return strict_str(v)
                     return "d" + hx(repr(v))
 
                 return "dict " + " ".join(hx(str(k)) + "=" + one(v) for k, v in r.items())
@@ -986,7 +1037,8 @@ ODD_TAGS = [J_s("01"), J_s(" 1"), J_s("-1"), J_i(-1), J_i(0), J_s("1.0"), {"floa
             J_s("٢ "), J_s("1__0"), J_i(10 ** 30), {"odd": "7"}, {"odd": ""}, {"odd": " 7"}, {"odd": "x"}, J_s("9" * 4301), J_s("1" * 4300), {"fmsg": "A"}, {"fmsg": "1"}, J_s("\x1c1"), J_s("\ud800")]
 STR_VALUES = ["a", "b", "c", "", "a|2=b", "x=y", ">", "[", "]", "1=>[2=x]", "#err#", "a, 2=b", "<class 'int'>", "0=>[]",
               "héllo", "5", "A", "1", " ", "|", "a|b", "\x01", "a\nb", "x" * 300, "8=FIX.4.4\x019=5"]
-OTHER_VALUES = [{"odd": ""}, {"odd": "odd|1=x"}, J_i(5), J_i(-3), J_i(0), {"float": "1.5"}, {"float": "1e22"}, {"float": "nan"}, {"fmsg": "A"}, {"fmsg": "D"},
+OTHER_VALUES = [{"strsub": ["1", "one"]}, {"strsub": ["a", "a"]}, {"strsub": ["", "x|2=y"]}, {"strenum": "BUY"}, {"strenum": "SELL"},
+                {"intenum": "ONE"}, {"mixint": "SEVEN"}, {"ftag": "35"}, {"odd": ""}, {"odd": "odd|1=x"}, J_i(5), J_i(-3), J_i(0), {"float": "1.5"}, {"float": "1e22"}, {"float": "nan"}, {"fmsg": "A"}, {"fmsg": "D"},
                 {"ftag": "1"}, {"none": 1}, {"bytes": "78"}, {"bool": True}, J_i(10 ** 25)]
 CLS_VALUES = [{"cls": n} for n in ("TagNotFoundError", "RepeatingTagError", "ValueError", "int", "str", "KeyboardInterrupt", "DuplicatedTagError")]
 DEFAULTS = [{"none": 1}, J_s("dflt"), J_i(0), {"float": "2.5"}, {"cls": "TagNotFoundError"}, {"cls": "RepeatingTagError"},
@@ -1852,7 +1904,7 @@ def impl_canon(c, path=()):
     for t, v in c.tags.items():
         if isinstance(v, type):
             raise OutOfDomain("class value in implementation state")
-        out.append((t, v if isinstance(v, str) else
+        out.append((t, (v if type(v) is str else strict_str(v)) if isinstance(v, str) else
                     [impl_canon(g, path) if hasattr(g, "tags") else "!" + type(g).__name__ for g in v.groups]))
     return out
 
@@ -2315,7 +2367,10 @@ def oracle_run(ops, all_failures=False):
             own = {parse_ref(iop[1])[0]} if len(iop) > 1 and isinstance(iop[1], str) and iop[0] not in CALLER_OPS else set()
             if iop[0] == "copy":
                 own = {iop[2]}
-            sig = (f"C18-content-changed-without-own-operation:{iop[0]}" if changed - own
+            typed = any("!" in canon_dump(got[k][1]) and "!cycle" not in canon_dump(got[k][1]) and "!dict" not in canon_dump(got[k][1])
+                        for k in changed if k in got)
+            sig = (f"C18-value-not-stored-as-plain-str:{iop[0]}" if typed and not (changed - own)
+                   else f"C18-content-changed-without-own-operation:{iop[0]}" if changed - own
                    else f"C18-failed-operation-changed-container:{iop[0]}" if raised
                    else classify(iop, acceptable, observed, impl, ref_before, state_only=True))
             fail = {"signature": sig,
